@@ -597,6 +597,46 @@ func finalCondSub(a *fiatAlg, mod *big.Int) ([]ssa.Value, string) {
 	return pre, ""
 }
 
+// maskSelector: v is (sel ? all-ones : 0) for a 0/1 value sel; returns sel
+func maskSelector(a *fiatAlg, v ssa.Value) (ssa.Value, string) {
+	v = stripConv(v)
+	switch x := v.(type) {
+	case *ssa.UnOp:
+		if x.Op == token.MUL {
+			if al, ok := x.X.(*ssa.Alloc); ok {
+				cm, ok := a.cmov[al]
+				if !ok {
+					return nil, "mask is not produced by CmovznzU64"
+				}
+				z, okz := constU64(cm[1])
+				nz, oknz := constU64(cm[2])
+				if !okz || !oknz || z != 0 || nz != ^uint64(0) {
+					return nil, "mask is not (borrow ? all-ones : 0)"
+				}
+				return stripConv(cm[0]), ""
+			}
+		}
+		if x.Op == token.SUB { // -sel
+			return stripConv(x.X), ""
+		}
+	case *ssa.BinOp:
+		if x.Op == token.MUL {
+			if k, ok := constU64(x.Y); ok && k == ^uint64(0) {
+				return stripConv(x.X), ""
+			}
+			if k, ok := constU64(x.X); ok && k == ^uint64(0) {
+				return stripConv(x.Y), ""
+			}
+		}
+		if x.Op == token.SUB {
+			if k, ok := constU64(x.X); ok && k == 0 {
+				return stripConv(x.Y), ""
+			}
+		}
+	}
+	return nil, "addend mask is not (borrow ? all-ones : 0) in a recognised spelling (conditional move, negation, multiplication by all-ones)"
+}
+
 // finalAddBack recognises: mask = cmov(sel, 0, all-ones); s_i, c_i = Add64(D_i, mask [& m_i], c_{i-1}); out1[i] = s_i.
 // Returns the limbs D and the selector (the borrow of the subtraction).
 func finalAddBack(a *fiatAlg, mod *big.Int) ([]ssa.Value, ssa.Value, string) {
@@ -622,7 +662,6 @@ func finalAddBack(a *fiatAlg, mod *big.Int) ([]ssa.Value, ssa.Value, string) {
 	}
 	var D []ssa.Value
 	var sel, lastCarry ssa.Value
-	var maskAlloc *ssa.Alloc
 	for i := int64(0); i < 4; i++ {
 		ex, ok := stripConv(outVals[i]).(*ssa.Extract)
 		if !ok || ex.Index != 0 {
@@ -648,15 +687,15 @@ func finalAddBack(a *fiatAlg, mod *big.Int) ([]ssa.Value, ssa.Value, string) {
 		if limb != want[i] {
 			return nil, nil, fmt.Sprintf("limb %d: masked constant %#x is not the modulus limb %#x", i, limb, want[i])
 		}
-		ld, ok := mv.(*ssa.UnOp)
-		if !ok {
-			return nil, nil, "addend mask is not a conditional-move result"
+		// the mask: (borrow ? all-ones : 0), written as a conditional move, as -borrow, or as borrow * all-ones
+		ms, why := maskSelector(a, mv)
+		if ms == nil {
+			return nil, nil, why
 		}
-		al, ok := ld.X.(*ssa.Alloc)
-		if !ok || (maskAlloc != nil && al != maskAlloc) {
-			return nil, nil, "addend mask is not the one conditional-move result"
+		if sel != nil && ms != sel {
+			return nil, nil, "the limbs are masked by different selectors"
 		}
-		maskAlloc = al
+		sel = ms
 		ci := stripConv(args[2])
 		if i == 0 {
 			if c, ok := constU64(ci); !ok || c != 0 {
@@ -675,16 +714,6 @@ func finalAddBack(a *fiatAlg, mod *big.Int) ([]ssa.Value, ssa.Value, string) {
 		}
 		D = append(D, stripConv(args[0]))
 	}
-	cm, ok := a.cmov[maskAlloc]
-	if !ok {
-		return nil, nil, "mask is not produced by CmovznzU64"
-	}
-	z, okz := constU64(cm[1])
-	nz, oknz := constU64(cm[2])
-	if !okz || !oknz || z != 0 || nz != ^uint64(0) {
-		return nil, nil, "mask is not (borrow ? all-ones : 0)"
-	}
-	sel = stripConv(cm[0])
 	se, ok := sel.(*ssa.Extract)
 	if !ok || se.Index != 1 {
 		return nil, nil, "mask selector is not a borrow"
@@ -796,7 +825,12 @@ func c16NoWrap(r *Report, p *Prog) {
 				continue
 			}
 			if len(fn.Blocks) != 1 {
-				r.Undecided("NO-WRAP", p.FuncName(fn), p.Pos(fn.Pos()), "generated primitive is no longer straight-line")
+				switch k {
+				case "Mul", "Square", "Add", "Sub", "Opp", "FromMontgomery", "ToMontgomery":
+					r.Undecided("NO-WRAP", p.FuncName(fn), p.Pos(fn.Pos()), "generated primitive is no longer straight-line")
+				default:
+					r.Ok("NO-WRAP", p.FuncName(fn), p.Pos(fn.Pos()), "not straight-line any more; it is a selection / conversion helper and not part of the congruence argument")
+				}
 				continue
 			}
 			_, _, bad, nplain := fiatIntervals(p, fn)
